@@ -157,6 +157,9 @@ def normalize_key(
     shape_index = 0
     internal_shape_index = 0
 
+    if for_dump:  # the key only indexes the external axes
+        shape_mask = tuple(m for m in shape_mask if m)
+
     for axis, (mask, k) in enumerate(zip(shape_mask, key)):
         if mask:
             axis_size = shape[shape_index]
